@@ -375,7 +375,7 @@ class EquationSolver(object):
                 # invalid data.
                 try:
                     new_value[var] = eval(eqn, globals(), initial)
-                except ZeroDivisionError as er:
+                except (ZeroDivisionError, OverflowError) as er:
                     # We can add new error types that we are willing to temporarily accept.
                     new_value[var] = initial[var]
                     had_evaluation_errors = True
@@ -390,7 +390,12 @@ class EquationSolver(object):
                     relative_error += difference
                 else:
                     # Scale by variable size if large
-                    relative_error += difference / (max(abs(new_value[var]), abs(initial[var])))
+                    scale = max(abs(new_value[var]), abs(initial[var]))
+                    if scale > 0:
+                        relative_error += difference / scale
+                    else:
+                        # Only possible when the difference is NaN (an iterate is not a number).
+                        relative_error += difference
             if num_tries > 10:
                 # Allow initial iterations to swing a lot, but we clamp down the
                 # movement later. (We want constants to immediately move to the correct value,
